@@ -3,6 +3,7 @@ package main
 // C03 — decoding untrusted bytes never panics, hangs or over-allocates; truncated mandatory parts are errors.
 
 import (
+	"bytes"
 	"context"
 	"encoding/binary"
 	"fmt"
@@ -19,6 +20,7 @@ import (
 	"github.com/hujm2023/go-sms-protocol/smgp/smgp30"
 	"github.com/hujm2023/go-sms-protocol/smpp"
 	"github.com/hujm2023/go-sms-protocol/smpp/smpp34"
+	"golang.org/x/text/transform"
 )
 
 func init() { runners["C03"] = runC03 }
@@ -64,6 +66,18 @@ func (c *c03ctx) probeAlloc(what string, in []byte, rep []string, f func()) {
 	if pn != "" {
 		return
 	}
+	// the counter is the process's: something else allocating at that moment (a timer, the collector, a goroutine of
+	// an earlier probe winding down) is charged to this call.  An excess is believed only when it repeats.
+	for try := 0; try < 3 && (alloc > allocBudget(len(in)) || dur > 2*time.Second); try++ {
+		runtime.GC()
+		_, d2, a2 := measured(f)
+		if a2 < alloc {
+			alloc = a2
+		}
+		if d2 < dur {
+			dur = d2
+		}
+	}
 	if alloc > allocBudget(len(in)) {
 		c.res.Violate("C03.over-allocation:"+what, fmt.Sprintf("%s allocated %d octets for a %d-octet input (budget %d)", what, alloc, len(in), allocBudget(len(in))), rep)
 	}
@@ -79,7 +93,7 @@ func mandatoryLen(name string, img []byte, r record) int {
 }
 
 func runC03(res *Result, d *Driver, g *Rng, tier string) {
-	res.Rule = "every PDU decoder and the five dispatchers on structured malformed images (every truncation point, length/count octets replaced by 0,1,0x7f,0x80,0xff, inconsistent total length incl. 0xFFFFFFF0-style declared lengths, trailing garbage 1..16, well-formed and malformed optional tails) and random bytes; auxiliary parsers (PeekHeader x4, NewHeaderFromBytes, ParseLongSmsContent, both receipt extractors (incl. invalid UTF-8 and case-folding-sensitive letters in front of every key), Unpack / packed decoder, ReadTLVs/ReadTLVs1/ReadOptions/ParseOptions, frame extractors, text decoders, Decode*Content) on all strings of <= 2 octets, branch alphabets to length 4 (5 thorough) and random strings; panic, deadline (hang) and runtime.MemStats.TotalAlloc captured per call; non-trivial = distinct input"
+	res.Rule = "every PDU decoder and the five dispatchers on structured malformed images (every truncation point, length/count octets replaced by 0,1,0x7f,0x80,0xff, inconsistent total length incl. 0xFFFFFFF0-style declared lengths, trailing garbage 1..16, well-formed and malformed optional tails) and random bytes; auxiliary parsers (PeekHeader x4, NewHeaderFromBytes, ParseLongSmsContent, both receipt extractors (incl. invalid UTF-8 and case-folding-sensitive letters in front of every key), Unpack / packed decoder, the four GSM 7-bit stream transformers, ReadTLVs/ReadTLVs1/ReadOptions/ParseOptions, frame extractors, text decoders, Decode*Content) on all strings of <= 2 octets, branch alphabets to length 4 (5 thorough) and random strings; panic, deadline (hang) and runtime.MemStats.TotalAlloc captured per call; non-trivial = distinct input"
 	if err := loadLayouts(layoutsPath); err != nil {
 		res.Disagreements = append(res.Disagreements, Violation{Class: "driver-failure", What: err.Error()})
 		return
@@ -249,6 +263,17 @@ func runC03(res *Result, d *Driver, g *Rng, tier string) {
 			}
 		}
 	}
+	// packed GSM 7-bit streams of 8, 16 and 24 septets ending in every pair over {ESC, CR, @, a, the last defined
+	// septet}: the endings the filler rule and the escape rule meet at
+	for _, n := range []int{8, 16, 24} {
+		for _, x := range []byte{0x1b, 0x0d, 0x00, 0x61, 0x7f} {
+			for _, y := range []byte{0x1b, 0x0d, 0x00, 0x61, 0x7f} {
+				sept := bytes.Repeat([]byte{0x61}, n)
+				sept[n-2], sept[n-1] = x, y
+				inputs = append(inputs, refPack(sept), sept)
+			}
+		}
+	}
 	for i := 0; i < 3000; i++ {
 		inputs = append(inputs, g.Bytes(g.Intn(40)))
 	}
@@ -268,6 +293,10 @@ func runC03(res *Result, d *Driver, g *Rng, tier string) {
 		"gsm7encoding.Decode":             func(in []byte) { gsm.Decode(in) },
 		"gsm7encoding.ValidateGSM7Buffer": func(in []byte) { gsm.ValidateGSM7Buffer(in) },
 		"GSM7Packed.Decode":               func(in []byte) { datacoding.GSM7Packed(in).Decode() },
+		"GSM7(packed).NewDecoder":         func(in []byte) { transform.Bytes(gsm.GSM7(true).NewDecoder(), in) },
+		"GSM7(unpacked).NewDecoder":       func(in []byte) { transform.Bytes(gsm.GSM7(false).NewDecoder(), in) },
+		"GSM7(packed).NewEncoder":         func(in []byte) { transform.Bytes(gsm.GSM7(true).NewEncoder(), in) },
+		"GSM7(unpacked).NewEncoder":       func(in []byte) { transform.Bytes(gsm.GSM7(false).NewEncoder(), in) },
 		"GSM7Unpacked.Decode":             func(in []byte) { datacoding.GSM7Unpacked(in).Decode() },
 		"UCS2.Decode":                     func(in []byte) { datacoding.UCS2(in).Decode() },
 		"GB18030.Decode":                  func(in []byte) { datacoding.GB18030(in).Decode() },
